@@ -73,25 +73,14 @@ func ruleSiteAfterOK(c *Ctx, r *Report, clause, fnKey, site, guard string, resul
 		r.add(clause, "guardedby", key, desc, []string{fnKey}, []string{w.pos(fi.Decl.Pos())}, fmt.Sprintf("no call to %s in %s", site, fnKey))
 		return
 	}
-	gcalls := callsIn(fi.SSA, false, nameIs(guard))
-	avoid := map[edge]bool{}
 	var sites []string
-	for _, g := range gcalls {
-		sites = append(sites, w.pos(g.Pos()))
-		for _, e := range okEdgesOfCall(g, resultIdx) {
-			avoid[e] = true
-		}
-	}
 	viol := ""
-	if len(avoid) == 0 {
-		viol = fmt.Sprintf("result of %s is not tested in %s", guard, fnKey)
-	} else {
-		reach, _ := reachAvoiding(fi.SSA, nil, avoid)
-		for _, s := range sitesCalls {
-			sites = append(sites, w.pos(s.Pos()))
-			if reach[s.Block()] {
-				viol = fmt.Sprintf("%s: %s is reachable without a successful %s", w.pos(s.Pos()), site, guard)
-			}
+	for _, s := range sitesCalls {
+		sites = append(sites, w.pos(s.Pos()))
+		gs, ok := w.afterOK(fi.SSA, s, nameIs(guard), resultIdx, guard, 0)
+		sites = append(sites, gs...)
+		if !ok {
+			viol = fmt.Sprintf("%s: %s is reachable without a successful %s", w.pos(s.Pos()), site, guard)
 		}
 	}
 	r.add(clause, "guardedby", key, desc, []string{fnKey, site, guard}, sites, viol)
@@ -214,7 +203,7 @@ func ruleWhoCalls(c *Ctx, r *Report, clause string, calleePred func(string) bool
 	for _, fn := range fns {
 		sites = append(sites, got[fn]...)
 		n += len(got[fn])
-		if !allowedSet[fn] {
+		if !allHostsIn(allowedSet, fn) {
 			viol = fmt.Sprintf("%s: %s is called from %s, which is not in the allowed set %v", got[fn][0], calleeDesc, fn, allowed)
 		}
 	}
@@ -244,7 +233,7 @@ func ruleWhoStores(c *Ctx, r *Report, clause string, owner *types.Named, field s
 		fn := fnShort(st.Parent())
 		p := w.pos(st.Pos())
 		sites = append(sites, p)
-		if !allowedSet[fn] {
+		if !allHostsIn(allowedSet, fn) {
 			viol = fmt.Sprintf("%s: field %s is written in %s, not in allowed writers %v", p, key, fn, allowed)
 		}
 	}
@@ -358,4 +347,50 @@ func instrPos(b *ssa.BasicBlock) token.Pos {
 		}
 	}
 	return 0
+}
+
+// afterOK: instruction ins, somewhere in the region of top (top itself or a new function
+// it calls), is only reachable after a call matching guard returned a good result: either
+// within its own function, or - for a new function - at every call site leading to it
+// from top. A new function that itself only succeeds after a good guard call stands for
+// the guard.
+func (w *World) afterOK(top *ssa.Function, ins ssa.Instruction, guard func(string) bool, resultIdx int, what string, depth int) ([]string, bool) {
+	var sites []string
+	f := ins.Parent()
+	avoid := map[edge]bool{}
+	for _, g := range callsInLocal(f, false, guard) {
+		sites = append(sites, w.pos(g.Pos()))
+		for _, e := range okEdgesOfCall(g, resultIdx) {
+			avoid[e] = true
+		}
+	}
+	for _, hc := range w.newHelperCalls(f) {
+		h := w.newCallee(hc)
+		if errResultIndex(h) >= 0 && w.summary(sumKey{namedOf(h), "ok", what, resultIdx}, func() bool { _, v := w.mustPassOK(h, guard, resultIdx, what); return v == "" }) {
+			sites = append(sites, w.pos(hc.Pos()))
+			for _, e := range okEdgesOfCall(hc, -1) {
+				avoid[e] = true
+			}
+		}
+	}
+	if len(avoid) > 0 {
+		if reach, _ := reachAvoiding(f, nil, avoid); !reach[ins.Block()] {
+			return sites, true
+		}
+	}
+	if namedOf(f) == namedOf(top) || !w.isNewFn(f) || depth > 6 {
+		return sites, false
+	}
+	cs := w.callSitesOfNew(f)
+	if len(cs) == 0 {
+		return sites, false
+	}
+	for _, c := range cs {
+		s2, ok := w.afterOK(top, c, guard, resultIdx, what, depth+1)
+		sites = append(sites, s2...)
+		if !ok {
+			return sites, false
+		}
+	}
+	return sites, true
 }
